@@ -21,6 +21,8 @@ structure FastTables (S : SmallSet) (f : Fmt) (r : Nat) : Prop where
   lim : limitsOk S f r = true
   int : ∀ e (he : e < (S.intPow r).size), (S.intPow r)[e] = r ^ e
   rpos : 0 < r
+  powSize : (S.exponentLimit f r).2 < ((S.floatPow f r).size : Int)
+  intSize : S.mantissaLimit f r < ((S.intPow r).size : Int)
 
 theorem toFrac_den_pos (d : Dec) : 0 < d.toFrac.2 := by
   unfold Dec.toFrac; split
@@ -237,5 +239,45 @@ theorem fastPath_exact {F : FTy} {p eb : Nat} (lay : Layout F p eb) {S : SmallSe
                 rw [this]
               · exact absurd h (by simp)
     · exact absurd h (by simp)
+
+/-- **`try_fast_path` never panics**: every table index it uses is inside the table -/
+theorem fastPath_no_panic {F : FTy} {S : SmallSet} {r : Nat} (T : FastTables S F.fmt r) (expBase : Nat)
+    (n : Num) : tryFastPath S F r expBase n ≠ .panic := by
+  obtain ⟨hmin, hmax, hlim0⟩ := limits_of T
+  have hdis : S.maxExpDisguised F.fmt r = (S.exponentLimit F.fmt r).2 + S.mantissaLimit F.fmt r := by
+    have := T.lim
+    unfold limitsOk at this
+    simp only [Bool.and_eq_true, beq_iff_eq] at this
+    exact this.2
+  have hps := T.powSize
+  have his := T.intSize
+  unfold tryFastPath
+  split
+  · simp
+  · split
+    · rename_i hfast
+      unfold isFastPath at hfast
+      simp only [Bool.and_eq_true, decide_eq_true_eq, Bool.not_eq_true'] at hfast
+      obtain ⟨⟨⟨hlo, hhi⟩, _⟩, _⟩ := hfast
+      simp only []
+      split
+      · rename_i hnorm
+        split
+        · have hidx : (-n.exponent).toNat < (S.floatPow F.fmt r).size := by omega
+          unfold powFastPath
+          rw [Array.getElem?_eq_getElem hidx]; simp
+        · have hidx : n.exponent.toNat < (S.floatPow F.fmt r).size := by omega
+          unfold powFastPath
+          rw [Array.getElem?_eq_getElem hidx]; simp
+      · rename_i hnorm
+        have hidx : (n.exponent - S.maxExpFast F.fmt r).toNat < (S.intPow r).size := by omega
+        have hidx2 : (S.maxExpFast F.fmt r).toNat < (S.floatPow F.fmt r).size := by omega
+        unfold intPowFastPath powFastPath
+        rw [Array.getElem?_eq_getElem hidx, Array.getElem?_eq_getElem hidx2]
+        simp only []
+        split
+        · simp
+        · split <;> simp
+    · simp
 
 end LexVerif.Proof.FastPathExact
